@@ -109,10 +109,7 @@ func (x *exec) scripted(ctx context.Context, cfg scheduler.Config) {
 		}()
 	}
 	enq := func(j int) {
-		var deps []*scheduler.ScheduledJob
-		for _, d := range rs.Deps[j-1] {
-			deps = append(deps, handles[d])
-		}
+		deps := depsOf(rs, handles, j)
 		x.log.Add(vt.APIEvent{Ev: "submit", Run: rs.Run, Job: j})
 		handles[j] = s.Enqueue(x.ctxOf(ctx, j), scheduler.Job{Run: x.body(j), Dependencies: deps})
 		next = j + 1
